@@ -575,4 +575,557 @@ example : ∃ p, rarefy 1 [("a", 2), ("b", 1)] [("a", [65]), ("b", [67]), ("c", 
   exact ⟨_, rfl, rfl⟩
 
 
+
+/-! ## invariants of the remaining operations, stated over *all* outcomes of a program -/
+
+/-- every possible result of the program — whatever the answers to its draws — satisfies `P` -/
+inductive AllOut {α : Type} (P : α → Prop) : RProg α → Prop
+  | pure (a : α) : P a → AllOut P (.pure a)
+  | intn (n : Nat) (k : Nat → RProg α) : (∀ v, v < n → AllOut P (k v)) → AllOut P (.intn n k)
+  | unit (k : Float → RProg α) : (∀ x, AllOut P (k x)) → AllOut P (.unit k)
+
+theorem AllOut.of_runTape {α} {P : α → Prop} {p : RProg α} (h : AllOut P p) :
+    ∀ (t : List Ans) (a : α) (t' : List Ans), runTape p t = some (a, t') → P a := by
+  induction h with
+  | pure a ha => intro t b t' hr; simp [runTape] at hr; obtain ⟨rfl, _⟩ := hr; exact ha
+  | intn n k _ ih =>
+    intro t b t' hr
+    cases t with
+    | nil => simp [runTape] at hr
+    | cons x t =>
+      cases x with
+      | nat v =>
+        simp only [runTape] at hr
+        split at hr
+        · rename_i hv; exact ih v hv t b t' hr
+        · cases hr
+      | flt f => simp [runTape] at hr
+  | unit k _ ih =>
+    intro t b t' hr
+    cases t with
+    | nil => simp [runTape] at hr
+    | cons x t =>
+      cases x with
+      | nat v => simp [runTape] at hr
+      | flt f => exact ih f t b t' (by simpa [runTape] using hr)
+
+theorem AllOut.bind {α β} {Q : α → Prop} {P : β → Prop} {p : RProg α} {f : α → RProg β}
+    (hp : AllOut Q p) (hf : ∀ a, Q a → AllOut P (f a)) : AllOut P (RProg.bind p f) := by
+  induction hp with
+  | pure a ha => exact hf a ha
+  | intn n k _ ih => exact AllOut.intn n _ (fun v hv => ih v hv)
+  | unit k _ ih => exact AllOut.unit _ (fun x => ih x)
+
+theorem AllOut.trivial {α} (p : RProg α) : AllOut (fun _ => True) p := by
+  induction p with
+  | pure a => exact AllOut.pure a True.intro
+  | intn n k ih => exact AllOut.intn n k (fun v _ => ih v)
+  | unit k ih => exact AllOut.unit k ih
+
+/-- conversely, a statement about all tape runs is an `AllOut` statement -/
+theorem AllOut.of_forall_tapes {α} {P : α → Prop} (p : RProg α)
+    (h : ∀ (t : List Ans) (a : α) (t' : List Ans), runTape p t = some (a, t') → P a) : AllOut P p := by
+  induction p with
+  | pure a => exact AllOut.pure a (h [] a [] (by simp [runTape]))
+  | intn n k ih =>
+    refine AllOut.intn n k (fun v hv => ih v (fun t a t' hr => h (Ans.nat v :: t) a t' ?_))
+    simp [runTape, hv, hr]
+  | unit k ih =>
+    refine AllOut.unit k (fun x => ih x (fun t a t' hr => h (Ans.flt x :: t) a t' ?_))
+    simp [runTape, hr]
+
+/-- seeded runs are covered too: a run of a generator that answers `Intn(n)` below `n` is some run -/
+theorem AllOut.of_runGen {α σ} {P : α → Prop} {p : RProg α} (h : AllOut P p) (hwf : WF p) (g : Gen σ)
+    (hg : ∀ n s, 0 < n → (g.intn n s).1 < n) (s : σ) : P (runGen g p s).1 := by
+  have := runGen_is_runTape g hg p hwf s
+  exact h.of_runTape _ _ _ this
+
+/-! ### AddGaps -/
+
+/-- residues may only become gaps -/
+def GapStep (a b : Seq) : Prop := Pointwise (fun x y => x = y ∨ y = GAP) a b
+def GapRel (a b : Rows) : Prop := Pointwise (fun r s => r.1 = s.1 ∧ GapStep r.2 s.2) a b
+
+theorem Pointwise.refl' {α} {R : α → α → Prop} (h : ∀ a, R a a) : ∀ l : List α, Pointwise R l l
+  | [] => Pointwise.nil
+  | a :: l => Pointwise.cons (h a) (Pointwise.refl' h l)
+
+theorem Pointwise.trans' {α} {R : α → α → Prop} (h : ∀ a b c, R a b → R b c → R a c) :
+    ∀ {l₁ l₂ l₃ : List α}, Pointwise R l₁ l₂ → Pointwise R l₂ l₃ → Pointwise R l₁ l₃ := by
+  intro l₁ l₂ l₃ h₁
+  induction h₁ generalizing l₃ with
+  | nil => intro h₂; cases h₂; exact Pointwise.nil
+  | cons hab _ ih =>
+    intro h₂
+    cases h₂ with
+    | cons hbc h₂' => exact Pointwise.cons (h _ _ _ hab hbc) (ih h₂')
+
+theorem Pointwise.set' {α} {R : α → α → Prop} (hr : ∀ a, R a a) :
+    ∀ (l : List α) (i : Nat) (b : α), (∀ a, l[i]? = some a → R a b) → Pointwise R l (l.set i b) := by
+  intro l
+  induction l with
+  | nil => intro i b _; exact Pointwise.nil
+  | cons a l ih =>
+    intro i b h
+    cases i with
+    | zero => exact Pointwise.cons (h a (by simp)) (Pointwise.refl' hr l)
+    | succ i => exact Pointwise.cons (hr a) (ih i b (fun a' ha' => h a' (by simpa using ha')))
+
+theorem GapStep.refl (s : Seq) : GapStep s s :=
+  Pointwise.refl' (R := fun x y => x = y ∨ y = GAP) (fun _ => Or.inl rfl) s
+theorem GapStep.trans {a b c : Seq} (h₁ : GapStep a b) (h₂ : GapStep b c) : GapStep a c :=
+  Pointwise.trans' (R := fun x y => x = y ∨ y = GAP) (fun _ _ _ hxy hyz => by
+    rcases hyz with rfl | rfl
+    · exact hxy
+    · exact Or.inr rfl) h₁ h₂
+
+theorem GapRel.refl (r : Rows) : GapRel r r := Pointwise.refl' (fun a => ⟨rfl, GapStep.refl a.2⟩) r
+theorem GapRel.trans {a b c : Rows} (h₁ : GapRel a b) (h₂ : GapRel b c) : GapRel a c :=
+  Pointwise.trans' (fun x y z hxy hyz => ⟨hxy.1.trans hyz.1, hxy.2.trans hyz.2⟩) h₁ h₂
+
+theorem setCols_gapStep (cols : List Nat) : ∀ s : Seq, GapStep s (setCols s cols GAP) := by
+  unfold setCols
+  induction cols with
+  | nil => intro s; exact GapStep.refl s
+  | cons j cols ih =>
+    intro s
+    simp only [List.foldl_cons]
+    exact GapStep.trans (Pointwise.set' (R := fun x y => x = y ∨ y = GAP) (fun _ => Or.inl rfl) s j GAP (fun _ _ => Or.inr rfl)) (ih _)
+
+theorem updateRow_gapRel (rows : Rows) (i : Nat) (cols : List Nat) :
+    GapRel rows (updateRow rows i fun s => setCols s cols GAP) := by
+  unfold updateRow
+  split
+  · rename_i r hr
+    exact Pointwise.set' (fun a => ⟨rfl, GapStep.refl a.2⟩) rows i _
+      (fun a ha => by rw [hr] at ha; cases ha; exact ⟨rfl, setCols_gapStep cols _⟩)
+  · exact GapRel.refl rows
+
+theorem addGapsLoop_allOut (L nbgaps : Nat) : ∀ (idx : List Nat) (rows₀ rows : Rows), GapRel rows₀ rows →
+    AllOut (fun out => GapRel rows₀ out) (addGapsLoop L nbgaps idx rows) := by
+  intro idx
+  induction idx with
+  | nil => intro rows₀ rows h; exact AllOut.pure _ h
+  | cons i rest ih =>
+    intro rows₀ rows h
+    simp only [addGapsLoop]
+    exact AllOut.bind (AllOut.trivial _) (fun ps _ => ih rows₀ _ (GapRel.trans h (updateRow_gapRel rows i _)))
+
+/-- **`AddGaps` only turns residues into gaps; names, order and lengths are untouched** — for every
+answer to every draw, hence for every seed. -/
+theorem addGaps_only_adds_gaps (nb nbgaps L : Nat) (rows : Rows) :
+    AllOut (fun out => GapRel rows out) (addGaps nb nbgaps L rows) := by
+  unfold addGaps
+  exact AllOut.bind (AllOut.trivial _) (fun p _ => addGapsLoop_allOut L nbgaps _ rows rows (GapRel.refl rows))
+
+theorem addGaps_every_tape (nb nbgaps L : Nat) (rows : Rows) (t : List Ans) (out : Rows) (t' : List Ans)
+    (h : runTape (addGaps nb nbgaps L rows) t = some (out, t')) : GapRel rows out :=
+  (addGaps_only_adds_gaps nb nbgaps L rows).of_runTape t out t' h
+
+
+/-! ### Recombine -/
+
+private theorem splice_len (a b : Seq) (pos len L : Nat) (ha : a.length = L) (hb : b.length = L) (h : pos + len ≤ L) :
+    (a.take pos ++ (b.drop pos).take len ++ a.drop (pos + len)).length = L := by
+  simp [List.length_take, List.length_drop]; omega
+
+private theorem splice_get (a b : Seq) (pos len L : Nat) (ha : a.length = L) (hb : b.length = L) (h : pos + len ≤ L) (j : Nat) :
+    (a.take pos ++ (b.drop pos).take len ++ a.drop (pos + len))[j]? =
+      if j < pos then a[j]? else if j < pos + len then b[j]? else a[j]? := by
+  have l1 : (a.take pos).length = pos := by simp; omega
+  have l2 : ((b.drop pos).take len).length = len := by simp; omega
+  by_cases h1 : j < pos
+  · rw [if_pos h1, List.append_assoc, List.getElem?_append_left (by omega), List.getElem?_take, if_pos h1]
+  · rw [if_neg h1, List.append_assoc, List.getElem?_append_right (by omega), l1]
+    by_cases h2 : j < pos + len
+    · rw [if_pos h2, List.getElem?_append_left (by omega), List.getElem?_take, if_pos (by omega), List.getElem?_drop]
+      congr 1; omega
+    · rw [if_neg h2, List.getElem?_append_right (by omega), l2, List.getElem?_drop]
+      congr 1; omega
+
+/-- what `Recombine` promises about its output `out`, given the input `rows₀` of width `L`: same names in
+the same order, still `L` columns, and every residue of `out` occurs in `rows₀` **at the same column** -/
+structure ColCopy (L : Nat) (rows₀ out : Rows) : Prop where
+  names : out.map Prod.fst = rows₀.map Prod.fst
+  rect : ∀ s ∈ out, s.2.length = L
+  cols : ∀ s ∈ out, ∀ (j : Nat) (c : Byte), s.2[j]? = some c → ∃ r ∈ rows₀, r.2[j]? = some c
+
+theorem ColCopy.refl (L : Nat) (rows : Rows) (h : ∀ s ∈ rows, s.2.length = L) : ColCopy L rows rows :=
+  ⟨rfl, h, fun s hs j c hc => ⟨s, hs, hc⟩⟩
+
+private theorem map_fst_set (rows : Rows) (i : Nat) (a : String × Seq) (x : Seq) (h : rows[i]? = some a) :
+    (rows.set i (a.1, x)).map Prod.fst = rows.map Prod.fst := by
+  rw [List.map_set]
+  apply List.ext_getElem?
+  intro k
+  by_cases hk : k = i
+  · subst hk
+    by_cases hl : k < rows.length
+    · have := (List.getElem?_eq_some_iff.mp h).2
+      simp [List.getElem?_set, hl, ← this]
+    · have : rows[k]? = none := by simp; omega
+      rw [this] at h; cases h
+  · simp [List.getElem?_set, Ne.symm hk]
+
+private theorem colCopy_set (L : Nat) (rows₀ rows : Rows) (h : ColCopy L rows₀ rows) (i : Nat) (a : String × Seq)
+    (ha : rows[i]? = some a) (x : Seq) (hx : x.length = L)
+    (hc : ∀ (j : Nat) (c : Byte), x[j]? = some c → ∃ r ∈ rows₀, r.2[j]? = some c) : ColCopy L rows₀ (rows.set i (a.1, x)) := by
+  refine ⟨by rw [map_fst_set rows i a x ha]; exact h.names, ?_, ?_⟩
+  · intro s hs
+    rcases List.mem_or_eq_of_mem_set hs with hs | rfl
+    · exact h.rect s hs
+    · exact hx
+  · intro s hs
+    rcases List.mem_or_eq_of_mem_set hs with hs | rfl
+    · exact h.cols s hs
+    · exact hc
+
+private theorem recombOne_colCopy (L : Nat) (rows₀ rows : Rows) (h : ColCopy L rows₀ rows) (i j pos len : Nat)
+    (hpl : pos + len ≤ L) (swap : Bool) : ColCopy L rows₀ (recombOne rows i j pos len swap) := by
+  unfold recombOne
+  split
+  · rename_i a b ha hb
+    have ma := List.mem_of_getElem? ha
+    have mb := List.mem_of_getElem? hb
+    have la := h.rect a ma
+    have lb := h.rect b mb
+    have ca : ∀ (k : Nat) (c : Byte), (a.2.take pos ++ (b.2.drop pos).take len ++ a.2.drop (pos + len))[k]? = some c →
+        ∃ r ∈ rows₀, r.2[k]? = some c := by
+      intro k c hk
+      rw [splice_get a.2 b.2 pos len L la lb hpl k] at hk
+      split at hk
+      · exact h.cols a ma k c hk
+      · split at hk
+        · exact h.cols b mb k c hk
+        · exact h.cols a ma k c hk
+    have cb : ∀ (k : Nat) (c : Byte), (b.2.take pos ++ (a.2.drop pos).take len ++ b.2.drop (pos + len))[k]? = some c →
+        ∃ r ∈ rows₀, r.2[k]? = some c := by
+      intro k c hk
+      rw [splice_get b.2 a.2 pos len L lb la hpl k] at hk
+      split at hk
+      · exact h.cols b mb k c hk
+      · split at hk
+        · exact h.cols a ma k c hk
+        · exact h.cols b mb k c hk
+    have h1 := colCopy_set L rows₀ rows h i a ha _ (splice_len a.2 b.2 pos len L la lb hpl) ca
+    cases swap
+    · simpa using h1
+    · simp only [if_true]
+      by_cases hij : i = j
+      · subst hij
+        have hb' : (rows.set i (a.1, a.2.take pos ++ (b.2.drop pos).take len ++ a.2.drop (pos + len)))[i]? =
+            some (a.1, a.2.take pos ++ (b.2.drop pos).take len ++ a.2.drop (pos + len)) := by
+          have : i < rows.length := (List.getElem?_eq_some_iff.mp ha).1
+          simp [this]
+        have hab : a = b := by rw [ha] at hb; exact Option.some.inj hb
+        have := colCopy_set L rows₀ _ h1 i _ hb' _ (splice_len b.2 a.2 pos len L lb la hpl) cb
+        simpa [hab] using this
+      · have hb' : (rows.set i (a.1, a.2.take pos ++ (b.2.drop pos).take len ++ a.2.drop (pos + len)))[j]? = some b := by
+          rw [List.getElem?_set_ne hij]; exact hb
+        exact colCopy_set L rows₀ _ h1 j b hb' _ (splice_len b.2 a.2 pos len L lb la hpl) cb
+  · exact h
+
+private theorem recombLoop_allOut (L len nb : Nat) (hlen : len ≤ L) (swap : Bool) (p : List Nat) (rows₀ : Rows) :
+    ∀ (k i : Nat) (rows : Rows), ColCopy L rows₀ rows →
+      AllOut (fun out => ColCopy L rows₀ out) (recombLoop L len nb swap p k i rows) := by
+  intro k
+  induction k with
+  | zero => intro i rows h; exact AllOut.pure _ h
+  | succ k ih =>
+    intro i rows h
+    simp only [recombLoop]
+    exact AllOut.intn _ _ (fun pos hpos => ih _ _ (recombOne_colCopy L rows₀ rows h _ _ pos len (by omega) swap))
+
+/-- **`Recombine` only copies residues between rows at the same column**: names, order and width are kept
+and every residue of the result stands, in the input, in the same column — for every answer to every
+draw (`len ≤ L` is what `int(lenprop·L)` with `lenprop ≤ 1` gives). -/
+theorem recombine_copies_within_columns (nb len L : Nat) (hlen : len ≤ L) (swap : Bool) (rows : Rows)
+    (hrect : ∀ s ∈ rows, s.2.length = L) :
+    AllOut (fun out => ColCopy L rows out) (recombine nb len L swap rows) := by
+  unfold recombine
+  exact AllOut.bind (AllOut.trivial _) (fun p _ => recombLoop_allOut L len nb hlen swap p rows _ _ rows (ColCopy.refl L rows hrect))
+
+example : ∀ s ∈ ([("a", [65, 67, 71]), ("b", [84, 84, 84])] : Rows), s.2.length = 3 := by decide
+
+
+/-! ### Swap -/
+
+/-- column `k` of a container (0 where a row is too short) -/
+def colK (k : Nat) (rows : Rows) : List Byte := rows.map fun r => r.2.getD k 0
+
+private theorem colK_set (k : Nat) (rows : Rows) (i : Nat) (x : String × Seq) :
+    colK k (rows.set i x) = (colK k rows).set i (x.2.getD k 0) := by
+  unfold colK; rw [List.map_set]
+
+private theorem tails_getD (a b : Seq) (pos L k : Nat) (ha : a.length = L) (hb : b.length = L) :
+    (a.take pos ++ b.drop pos).getD k 0 = if k < pos then a.getD k 0 else b.getD k 0 := by
+  simp only [List.getD_eq_getElem?_getD]
+  by_cases hp : pos ≤ L
+  · have l1 : (a.take pos).length = pos := by simp; omega
+    by_cases h1 : k < pos
+    · rw [if_pos h1, List.getElem?_append_left (by omega), List.getElem?_take, if_pos h1]
+    · rw [if_neg h1, List.getElem?_append_right (by omega), l1, List.getElem?_drop]
+      congr 2; omega
+  · have e1 : a.take pos = a := List.take_of_length_le (by omega)
+    have e2 : b.drop pos = [] := List.drop_eq_nil_of_le (by omega)
+    rw [e1, e2, List.append_nil]
+    by_cases h1 : k < pos
+    · rw [if_pos h1]
+    · rw [if_neg h1]
+      have : a[k]? = none := by simp; omega
+      have : b[k]? = none := by simp; omega
+      simp [*]
+
+private theorem tails_len (a b : Seq) (pos L : Nat) (ha : a.length = L) (hb : b.length = L) :
+    (a.take pos ++ b.drop pos).length = L := by
+  simp [List.length_take, List.length_drop]; omega
+
+/-- what `Swap` promises: same names in the same order, still `L` columns, and every column keeps its
+multiset of characters -/
+structure ColPerm (L : Nat) (rows₀ out : Rows) : Prop where
+  names : out.map Prod.fst = rows₀.map Prod.fst
+  rect : ∀ s ∈ out, s.2.length = L
+  cols : ∀ k : Nat, (colK k out).Perm (colK k rows₀)
+
+theorem ColPerm.refl (L : Nat) (rows : Rows) (h : ∀ s ∈ rows, s.2.length = L) : ColPerm L rows rows :=
+  ⟨rfl, h, fun _ => List.Perm.refl _⟩
+
+private theorem swapTails_colPerm (L : Nat) (rows₀ rows : Rows) (h : ColPerm L rows₀ rows) (i j pos : Nat) :
+    ColPerm L rows₀ (swapTails rows i j pos) := by
+  unfold swapTails
+  split
+  · rename_i a b ha hb
+    have ma := List.mem_of_getElem? ha
+    have mb := List.mem_of_getElem? hb
+    have la := h.rect a ma
+    have lb := h.rect b mb
+    have hi : i < rows.length := (List.getElem?_eq_some_iff.mp ha).1
+    have hj : j < rows.length := (List.getElem?_eq_some_iff.mp hb).1
+    by_cases hij : i = j
+    · subst hij
+      have hab : a = b := by rw [ha] at hb; exact Option.some.inj hb
+      subst hab
+      have e : (a.1, a.2.take pos ++ a.2.drop pos) = a := by simp
+      have : (rows.set i a) = rows := by
+        have := (List.getElem?_eq_some_iff.mp ha).2
+        rw [← this]; exact List.set_getElem_self hi
+      simp only [e, List.set_set, this]
+      exact h
+    · have hb' : (rows.set i (a.1, a.2.take pos ++ b.2.drop pos))[j]? = some b := by
+        rw [List.getElem?_set_ne hij]; exact hb
+      refine ⟨?_, ?_, ?_⟩
+      · rw [map_fst_set _ j b _ hb', map_fst_set rows i a _ ha]; exact h.names
+      · intro s hs
+        rcases List.mem_or_eq_of_mem_set hs with hs | rfl
+        · rcases List.mem_or_eq_of_mem_set hs with hs | rfl
+          · exact h.rect s hs
+          · exact tails_len a.2 b.2 pos L la lb
+        · exact tails_len b.2 a.2 pos L lb la
+      · intro k
+        refine List.Perm.trans ?_ (h.cols k)
+        rw [colK_set, colK_set]
+        simp only [tails_getD a.2 b.2 pos L k la lb, tails_getD b.2 a.2 pos L k lb la]
+        have ca : (colK k rows)[i]? = some (a.2.getD k 0) := by unfold colK; simp [ha]
+        have cb : (colK k rows)[j]? = some (b.2.getD k 0) := by unfold colK; simp [hb]
+        by_cases hk : k < pos
+        · simp only [if_pos hk]
+          have e1 : (colK k rows).set i (a.2.getD k 0) = colK k rows := by
+            have := (List.getElem?_eq_some_iff.mp ca).2
+            rw [← this]; exact List.set_getElem_self _
+          rw [e1]
+          have e2 : (colK k rows).set j (b.2.getD k 0) = colK k rows := by
+            have := (List.getElem?_eq_some_iff.mp cb).2
+            rw [← this]; exact List.set_getElem_self _
+          rw [e2]
+        · simp only [if_neg hk]
+          have : ((colK k rows).set i (b.2.getD k 0)).set j (a.2.getD k 0) = swapAt (colK k rows) i j := by
+            unfold swapAt; rw [ca, cb]
+          rw [this]
+          exact swapAt_perm _ i j
+  · exact h
+
+private theorem swapLoop_allOut (L half : Nat) (fixedPos : Option Nat) (p : List Nat) (rows₀ : Rows) :
+    ∀ (k i : Nat) (rows : Rows), ColPerm L rows₀ rows →
+      AllOut (fun out => ColPerm L rows₀ out) (swapLoop L half fixedPos p k i rows) := by
+  intro k
+  induction k with
+  | zero => intro i rows h; exact AllOut.pure _ h
+  | succ k ih =>
+    intro i rows h
+    simp only [swapLoop]
+    cases fixedPos with
+    | none => exact AllOut.intn _ _ (fun pos _ => ih _ _ (swapTails_colPerm L rows₀ rows h _ _ pos))
+    | some pos => exact ih _ _ (swapTails_colPerm L rows₀ rows h _ _ pos)
+
+/-- **`Swap` preserves every column's character multiset** (and names, order, width) — for every answer
+to every draw, with a random or a fixed break point. -/
+theorem swap_keeps_column_multisets (nb L : Nat) (fixedPos : Option Nat) (rows : Rows)
+    (hrect : ∀ s ∈ rows, s.2.length = L) :
+    AllOut (fun out => ColPerm L rows out) (swapRows nb L fixedPos rows) := by
+  unfold swapRows
+  exact AllOut.bind (AllOut.trivial _) (fun p _ => swapLoop_allOut L _ fixedPos p rows _ _ rows (ColPerm.refl L rows hrect))
+
+
+/-! ### SimulateRogue -/
+
+/-- row by row: same name, residues permuted -/
+def RowPermRel (a b : String × Seq) : Prop := a.1 = b.1 ∧ b.2.Perm a.2
+
+/-- what `SimulateRogue` promises about the rows: names and order kept, every row is a permutation of
+its own residues, and rows outside `chosen` are untouched -/
+def RogueRel (chosen : List Nat) (rows₀ out : Rows) : Prop :=
+  Pointwise RowPermRel rows₀ out ∧ ∀ i, i ∉ chosen → out[i]? = rows₀[i]?
+
+private theorem rowPermRel_refl (a : String × Seq) : RowPermRel a a := ⟨rfl, List.Perm.refl _⟩
+private theorem rowPermRel_trans (a b c : String × Seq) (h₁ : RowPermRel a b) (h₂ : RowPermRel b c) : RowPermRel a c :=
+  ⟨h₁.1.trans h₂.1, h₂.2.trans h₁.2⟩
+
+private theorem rogueShuffle_perm (sites : List Nat) : ∀ (k : Nat) (s₀ s : Seq), s.Perm s₀ →
+    AllOut (fun out => out.Perm s₀) (rogueShuffle sites k s) := by
+  intro k
+  induction k with
+  | zero => intro s₀ s h; exact AllOut.pure _ h
+  | succ k ih =>
+    intro s₀ s h
+    simp only [rogueShuffle]
+    exact AllOut.intn _ _ (fun j _ => ih s₀ _ ((swapAt_perm s _ _).trans h))
+
+private theorem rogueLoop_allOut (L len : Nat) (chosen : List Nat) (rows₀ : Rows) :
+    ∀ (todo : List Nat) (rows : Rows), (∀ r ∈ todo, r ∈ chosen) → RogueRel chosen rows₀ rows →
+      AllOut (fun out => RogueRel chosen rows₀ out) (rogueLoop L len todo rows) := by
+  intro todo
+  induction todo with
+  | nil => intro rows _ h; exact AllOut.pure _ h
+  | cons r rest ih =>
+    intro rows hsub h
+    simp only [rogueLoop]
+    refine AllOut.bind (AllOut.trivial _) (fun ps _ => ?_)
+    have hrest : ∀ x ∈ rest, x ∈ chosen := fun x hx => hsub x (List.mem_cons_of_mem _ hx)
+    split
+    · exact ih rows hrest h
+    · rename_i row hrow
+      refine AllOut.bind (rogueShuffle_perm _ _ row.2 row.2 (List.Perm.refl _)) (fun s hs => ih _ hrest ?_)
+      refine ⟨Pointwise.trans' rowPermRel_trans h.1
+        (Pointwise.set' rowPermRel_refl rows r (row.1, s) (fun a ha => by rw [hrow] at ha; cases ha; exact ⟨rfl, hs⟩)), ?_⟩
+      intro i hi
+      have : r ≠ i := fun e => hi (e ▸ hsub r List.mem_cons_self)
+      rw [List.getElem?_set_ne this]
+      exact h.2 i hi
+
+private theorem filterMap_range'_getElem? {α β} (f : α → β) : ∀ (l pre : List α),
+    (List.range' pre.length l.length).filterMap (fun i => ((pre ++ l)[i]?).map f) = l.map f := by
+  intro l
+  induction l with
+  | nil => intro pre; simp
+  | cons x l ih =>
+    intro pre
+    have h0 : (pre ++ x :: l)[pre.length]? = some x := by simp
+    have := ih (pre ++ [x])
+    simp only [List.length_append, List.length_singleton, List.append_assoc, List.singleton_append] at this
+    simp only [List.length_cons, List.range'_succ, List.filterMap_cons, h0, Option.map_some, List.map_cons]
+    rw [this]
+
+private theorem filterMap_range_getElem? {α β} (f : α → β) (l : List α) :
+    (List.range l.length).filterMap (fun i => (l[i]?).map f) = l.map f := by
+  have := filterMap_range'_getElem? f l []
+  simpa [List.range_eq_range'] using this
+
+theorem permProg_allOut (n : Nat) : AllOut (fun p => p.Perm (List.range n)) (permProg n) :=
+  AllOut.of_forall_tapes _ (fun t p t' h => perm_is_permutation n t p t' h)
+
+/-- **`SimulateRogue` permutes residues within the chosen rows only, and the rogue and intact names it
+reports partition the rows**: there is a set of chosen row indices such that the reported rogue names are
+the names of those rows, every row keeps its name and is a permutation of its own residues, rows outside
+the chosen set are untouched, and rogue ++ intact is a permutation of all names — for every answer to
+every draw. -/
+theorem rogue_permutes_chosen_rows_and_partitions_names (nb len L : Nat) (rows : Rows) :
+    AllOut (fun res => ∃ chosen : List Nat,
+        res.2.1 = chosen.filterMap (fun i => (rows[i]?).map Prod.fst) ∧
+        RogueRel chosen rows res.1 ∧
+        (res.2.1 ++ res.2.2).Perm (rows.map Prod.fst)) (simulateRogue nb len L rows) := by
+  unfold simulateRogue
+  refine AllOut.bind (permProg_allOut rows.length) (fun p hp => ?_)
+  refine AllOut.bind (rogueLoop_allOut L len (p.take nb) rows (p.take nb) rows (fun _ h => h)
+    ⟨Pointwise.refl' rowPermRel_refl rows, fun _ _ => rfl⟩) (fun rows' hr => ?_)
+  refine AllOut.pure _ ⟨p.take nb, rfl, hr, ?_⟩
+  simp only
+  rw [← List.filterMap_append, List.take_append_drop, ← filterMap_range_getElem? Prod.fst rows]
+  exact hp.filterMap _
+
+/-! ### these programs only ask `Intn(n)` with `n > 0`, so the statements hold for every seed -/
+
+private theorem addGapsLoop_wf (L nbgaps : Nat) : ∀ (idx : List Nat) (rows : Rows), WF (addGapsLoop L nbgaps idx rows) := by
+  intro idx
+  induction idx with
+  | nil => intro rows; exact WF.pure _
+  | cons i rest ih => intro rows; exact wf_bind _ _ (permProg_wf L) (fun _ => ih _)
+
+theorem addGaps_wf (nb nbgaps L : Nat) (rows : Rows) : WF (addGaps nb nbgaps L rows) :=
+  wf_bind _ _ (permProg_wf _) (fun _ => addGapsLoop_wf L nbgaps _ rows)
+
+private theorem swapLoop_wf (L half : Nat) (fixedPos : Option Nat) (hL : 0 < L ∨ fixedPos.isSome) (p : List Nat) :
+    ∀ (k i : Nat) (rows : Rows), WF (swapLoop L half fixedPos p k i rows) := by
+  intro k
+  induction k with
+  | zero => intro i rows; exact WF.pure _
+  | succ k ih =>
+    intro i rows
+    simp only [swapLoop]
+    cases fixedPos with
+    | none =>
+      have : 0 < L := by rcases hL with h | h; exact h; simp at h
+      exact WF.intn _ _ this (fun _ _ => ih _ _)
+    | some pos => exact ih _ _
+
+theorem swapRows_wf (nb L : Nat) (fixedPos : Option Nat) (hL : 0 < L ∨ fixedPos.isSome) (rows : Rows) :
+    WF (swapRows nb L fixedPos rows) :=
+  wf_bind _ _ (permProg_wf _) (fun p => swapLoop_wf L _ fixedPos hL p _ _ rows)
+
+private theorem recombLoop_wf (L len nb : Nat) (swap : Bool) (p : List Nat) :
+    ∀ (k i : Nat) (rows : Rows), WF (recombLoop L len nb swap p k i rows) := by
+  intro k
+  induction k with
+  | zero => intro i rows; exact WF.pure _
+  | succ k ih => intro i rows; exact WF.intn _ _ (by omega) (fun _ _ => ih _ _)
+
+theorem recombine_wf (nb len L : Nat) (swap : Bool) (rows : Rows) : WF (recombine nb len L swap rows) :=
+  wf_bind _ _ (permProg_wf _) (fun p => recombLoop_wf L len nb swap p _ _ rows)
+
+private theorem rogueShuffle_wf (sites : List Nat) : ∀ (k : Nat) (s : Seq), WF (rogueShuffle sites k s) := by
+  intro k
+  induction k with
+  | zero => intro s; exact WF.pure _
+  | succ k ih => intro s; exact WF.intn _ _ (by omega) (fun _ _ => ih _)
+
+private theorem rogueLoop_wf (L len : Nat) : ∀ (todo : List Nat) (rows : Rows), WF (rogueLoop L len todo rows) := by
+  intro todo
+  induction todo with
+  | nil => intro rows; exact WF.pure _
+  | cons r rest ih =>
+    intro rows
+    simp only [rogueLoop]
+    refine wf_bind _ _ (permProg_wf L) (fun ps => ?_)
+    split
+    · exact ih _
+    · exact wf_bind _ _ (rogueShuffle_wf _ _ _) (fun _ => ih _)
+
+theorem simulateRogue_wf (nb len L : Nat) (rows : Rows) : WF (simulateRogue nb len L rows) :=
+  wf_bind _ _ (permProg_wf _) (fun _ => wf_bind _ _ (rogueLoop_wf L len _ rows) (fun _ => WF.pure _))
+
+/-- **For every seed**: the added gaps, the swap, the recombination and the rogue simulation of the Go
+generator keep their promise (instances of the statements above at the seeded run). -/
+theorem addGaps_every_seed (nb nbgaps L : Nat) (rows : Rows) (seed : Int) :
+    GapRel rows (runSeed (addGaps nb nbgaps L rows) seed) :=
+  (addGaps_only_adds_gaps nb nbgaps L rows).of_runGen (addGaps_wf nb nbgaps L rows) goGen goGen_intn_lt _
+
+theorem swap_every_seed (nb L : Nat) (fixedPos : Option Nat) (hL : 0 < L ∨ fixedPos.isSome) (rows : Rows)
+    (hrect : ∀ s ∈ rows, s.2.length = L) (seed : Int) :
+    ColPerm L rows (runSeed (swapRows nb L fixedPos rows) seed) :=
+  (swap_keeps_column_multisets nb L fixedPos rows hrect).of_runGen (swapRows_wf nb L fixedPos hL rows) goGen goGen_intn_lt _
+
+theorem recombine_every_seed (nb len L : Nat) (hlen : len ≤ L) (swap : Bool) (rows : Rows)
+    (hrect : ∀ s ∈ rows, s.2.length = L) (seed : Int) :
+    ColCopy L rows (runSeed (recombine nb len L swap rows) seed) :=
+  (recombine_copies_within_columns nb len L hlen swap rows hrect).of_runGen (recombine_wf nb len L swap rows) goGen goGen_intn_lt _
+
 end Gv.Props.C10
